@@ -117,6 +117,18 @@ def main():
         print(json.dumps(r, indent=1, default=str))
         sys.exit(1 if r.get('fails') else 0)
 
+    # the models were written against one state of the anchored source files: when one of them no longer matches its recorded
+    # AST fingerprint the quick sample is not trusted - correspondence and oracle run on the thorough tier (a changed file is
+    # not by itself an obligation that failed: a rewrite can be harmless)
+    requested_tier = tier
+    src_changed = []
+    try:
+        import fingerprint
+        src_changed = fingerprint.changed(prop)
+    except Exception as e:
+        src_changed = ['fingerprint: %s' % e]
+    if src_changed and tier == 'quick' and os.environ.get('VERIF_NO_ESCALATE') != '1':
+        tier = 'thorough'
     rng = np.random.default_rng([seed, int(prop[1:])])
     broken = []          # obligations that no longer check: (name, detail)
     violations = []      # (replay path, text, no_input flag)
@@ -304,7 +316,9 @@ def main():
     cov['known_findings_reported'] = [l for l in known_lines]
     cov['broken_obligations'] = [dict(name=b[0], detail=b[1][:500]) for b in broken]
     cov['exhaustive'] = False
-    ev = dict(property_id=prop, tier=tier, seed=seed, level='proof', coverage=cov,
+    cov['source_files_changed_since_model'] = src_changed
+    cov['requested_tier'] = requested_tier
+    ev = dict(property_id=prop, tier=requested_tier, seed=seed, level='proof', coverage=cov,
               assumptions=mod.ASSUMES, wall_s=round(wall, 2), violations=len(violations))
     # runs against seeded changes (tools/seeded.py) write their evidence elsewhere: /verif/evidence only holds runs on /repo as it is
     evdir = os.environ.get('VERIF_EVIDENCE_DIR') or os.path.join(VERIF, 'evidence')
@@ -313,6 +327,8 @@ def main():
         json.dump(ev, f, indent=1, default=str)
     for l in known_lines:
         print(l)
+    if src_changed and tier != requested_tier:
+        print('note: anchored source changed since the model was written (%s): ran the thorough tier' % ', '.join(src_changed)[:300])
     print('%s tier=%s obligations=%d discharged=%d evaluations=%d wall=%.1fs' % (prop, tier, cov['obligations'], cov['discharged'], cov['evaluations'], wall))
     for p, text, noinput in violations:
         print('  ' + text)
